@@ -564,3 +564,39 @@ package analysis
 //@   loop 1: modifies map res
 //@   loop 1: invariant res != nil && fresh(res) && (forall k string :: (k in dom(res)) <==> (k in seen))
 //@   loop 1: invariant forall k in seen :: k in dom(source) && res[k] == source[k]
+
+// ---------------------------------------------------------------- schema.go (C20)
+
+//@ fun coherent(a AnalyzedSchema) bool = a.IsSimpleSchema == (a.IsKnownType || a.IsSimpleArray || a.IsSimpleMap) && (a.IsSimpleArray ==> a.IsArray) && (a.IsSimpleMap ==> a.IsMap) && !(a.IsMap && a.IsExtendedObject) && !(a.IsTuple && a.IsTupleWithExtra) && !(a.IsArray && a.IsTuple)
+//@ fun complexA(a AnalyzedSchema) bool = !a.IsSimpleSchema && !a.IsArray && !a.IsMap
+//@ fun sameFlags(a AnalyzedSchema, b AnalyzedSchema) bool = a.hasProps == b.hasProps && a.hasAllOf == b.hasAllOf && a.hasItems == b.hasItems && a.hasAdditionalProps == b.hasAdditionalProps && a.hasAdditionalItems == b.hasAdditionalItems && a.hasRef == b.hasRef && a.IsKnownType == b.IsKnownType && a.IsSimpleSchema == b.IsSimpleSchema && a.IsArray == b.IsArray && a.IsSimpleArray == b.IsSimpleArray && a.IsMap == b.IsMap && a.IsSimpleMap == b.IsSimpleMap && a.IsExtendedObject == b.IsExtendedObject && a.IsTuple == b.IsTuple && a.IsTupleWithExtra == b.IsTupleWithExtra && a.IsBaseType == b.IsBaseType && a.IsEnum == b.IsEnum
+
+// the documented rules, over the schema value sv (no $ref)
+//@ fun noRef(sv spec.Schema) bool = sv.Ref.String() == ""
+//@ fun primType(sv spec.Schema) bool = sv.Type.Contains("boolean") || sv.Type.Contains("integer") || sv.Type.Contains("number") || sv.Type.Contains("string")
+//@ fun knownFormat(sv spec.Schema) bool = sv.Format != "" && strfmt.Default.ContainsName(sv.Format)
+//@ fun objType(sv spec.Schema) bool = isnil(sv.Type) || sv.Type.Contains("") || sv.Type.Contains("object")
+//@ fun arrType(sv spec.Schema) bool = !isnil(sv.Type) && sv.Type.Contains("array")
+//@ fun hasAP(sv spec.Schema) bool = sv.AdditionalProperties != nil && (sv.AdditionalProperties.Schema != nil || sv.AdditionalProperties.Allows)
+//@ fun hasAI(sv spec.Schema) bool = sv.AdditionalItems != nil && (sv.AdditionalItems.Schema != nil || sv.AdditionalItems.Allows)
+//@ fun hasIt(sv spec.Schema) bool = sv.Items != nil && (sv.Items.Schema != nil || len(sv.Items.Schemas) > 0)
+
+//@ func (a *AnalyzedSchema) inherits(other)
+//@   requires a != nil
+//@   modifies *a
+//@   ensures other != nil ==> sameFlags(*a, *other) && a.schema == old(a.schema) && a.root == old(a.root) && a.basePath == old(a.basePath)
+//@   ensures other == nil ==> *a == old(*a)
+
+// strfmt.Default (the global format registry) is initialised by its package
+//@ func Schema(opts)
+//@   requires strfmt.Default != nil
+//@   modifies nothing
+//@   ensures opts.Schema == nil ==> result1 != nil
+//@   ensures result1 == nil ==> result != nil && fresh(result) && coherent(*result)
+//@   ensures result1 == nil && noRef(*opts.Schema) && !primType(*opts.Schema) && !knownFormat(*opts.Schema) && objType(*opts.Schema) && !arrType(*opts.Schema) && len(opts.Schema.Properties) > 0 ==> complexA(*result)
+//@   ensures result1 == nil && noRef(*opts.Schema) && !primType(*opts.Schema) && !knownFormat(*opts.Schema) && objType(*opts.Schema) && !arrType(*opts.Schema) && len(opts.Schema.AllOf) > 0 ==> complexA(*result)
+//@   ensures result1 == nil && noRef(*opts.Schema) && !primType(*opts.Schema) && !knownFormat(*opts.Schema) && !objType(*opts.Schema) && hasIt(*opts.Schema) && !isnil(opts.Schema.Items.Schemas) ==> complexA(*result) && (result.IsTuple || result.IsTupleWithExtra)
+//@   ensures result1 == nil && noRef(*opts.Schema) && primType(*opts.Schema) ==> !complexA(*result) && result.IsKnownType
+//@   ensures result1 == nil && noRef(*opts.Schema) && arrType(*opts.Schema) && (opts.Schema.Items == nil || isnil(opts.Schema.Items.Schemas)) ==> !complexA(*result) && result.IsArray
+//@   ensures result1 == nil && noRef(*opts.Schema) && objType(*opts.Schema) && hasAP(*opts.Schema) && len(opts.Schema.Properties) == 0 && len(opts.Schema.AllOf) == 0 ==> !complexA(*result) && result.IsMap
+//@   ensures result1 == nil && noRef(*opts.Schema) && objType(*opts.Schema) && !hasAP(*opts.Schema) && !hasAI(*opts.Schema) && len(opts.Schema.Properties) == 0 && len(opts.Schema.AllOf) == 0 ==> !complexA(*result) && result.IsKnownType
